@@ -2,7 +2,7 @@
 # tools/mutest.sh <patch.diff> <check-id> [<check-id> ...]   (env TIER=quick|thorough, EXTRA="...")
 # Applies a seeded change to /repo, runs the given checks, and ALWAYS reverts /repo.
 set -u
-patch="$1"; shift
+patch="$(realpath "$1")"; shift
 cd /verif
 if [ -n "$(git -C /repo status --porcelain --untracked-files=no)" ]; then echo "/repo is dirty, refusing"; exit 3; fi
 if git -C /repo apply --check "$patch" 2>/dev/null; then
